@@ -140,6 +140,51 @@ func (t *Timer) Stop() bool {
 	return was
 }
 
+// Ticker is a simulated periodic timer.
+type Ticker struct {
+	C       *vchan.Chan[Time]
+	stopped *bool
+	d       int64
+}
+
+// NewTicker returns a ticker with period d (ticks are dropped if nobody receives, as in Go).
+func NewTicker(d Duration) *Ticker {
+	if d <= 0 {
+		panic("non-positive interval for NewTicker")
+	}
+	t := &Ticker{C: vchan.Make[Time](1), stopped: new(bool), d: int64(d)}
+	t.arm()
+	return t
+}
+
+func (t *Ticker) arm() {
+	s := sched.Cur
+	if s == nil || s.Aborted() {
+		return
+	}
+	s.AddTimer(t.d, func() {
+		if *t.stopped {
+			return
+		}
+		t.C.TrySendFromTimer(time.Unix(0, Epoch+s.NowNs).UTC())
+		t.arm()
+	})
+}
+
+// Stop turns the ticker off.
+func (t *Ticker) Stop() { *t.stopped = true }
+
+// Reset changes the period.
+func (t *Ticker) Reset(d Duration) { t.d = int64(d) }
+
+// Tick is time.Tick.
+func Tick(d Duration) *vchan.Chan[Time] {
+	if d <= 0 {
+		return nil
+	}
+	return NewTicker(d).C
+}
+
 // AfterFunc runs f on its own simulated goroutine after d.
 func AfterFunc(d Duration, f func()) *Timer {
 	stopped := new(bool)
